@@ -73,8 +73,10 @@ def random_machine(rng: random.Random, idx: int):
     nt = rng.randint(3, 7)
     for k in range(nt):
         # destinations are mostly leaves; occasionally an inner state
-        dst = rng.choice(leaves) if rng.random() < 0.85 else rng.choice(names)
-        pool = [s for s in (leaves if rng.random() < 0.8 else names) if not related(s, dst)]
+        dst = rng.choice(leaves) if rng.random() < 0.8 else rng.choice(names)
+        # mostly unrelated source/destination; sometimes a transition to an ancestor / descendant
+        allow_related = rng.random() < 0.25
+        pool = [s for s in (leaves if rng.random() < 0.8 else names) if allow_related or not related(s, dst)]
         if not pool:
             continue
         src = set(rng.sample(pool, rng.randint(1, min(3, len(pool)))))
